@@ -8,7 +8,7 @@ sys.path.insert(0, os.path.join(os.path.dirname(os.path.abspath(__file__)), ".."
 import facts
 import norm
 norm.apply = lambda f: None
-names, params, locs, bodies = set(), {}, {}, {}
+names, params, locs, bodies, ptypes = set(), {}, {}, {}, {}
 
 
 def walk(n):
@@ -31,6 +31,7 @@ for cfg in facts.CONFIGS:
         ps = [x.get("name") for x in fn.get("params", [])]
         if all(ps):
             params[sp] = ps
+            ptypes[sp] = [x.get("ty") for x in fn.get("params", [])]
         import hirlib
         cb = hirlib.canon(fn["body"])
         if len(cb) <= 200:
@@ -43,5 +44,5 @@ for p, a in F.adts.items():
     if a.get("kind") == "Enum" and a.get("vis") != "Public":
         variants[facts.strip_generics(p)] = [v["name"] for v in a["variants"]]
 out = os.path.join(facts.VERIF, "tables", "baseline_fns.json")
-json.dump({"comment": "crate-local functions of the tree the rules were written against (all feature configurations), with their parameter names in declaration order", "fns": sorted(names), "params": params, "locals": locs, "small_bodies": bodies, "private_enum_variants": variants}, open(out, "w"), indent=0)
+json.dump({"comment": "crate-local functions of the tree the rules were written against (all feature configurations), with their parameter names in declaration order", "fns": sorted(names), "params": params, "param_types": ptypes, "locals": locs, "small_bodies": bodies, "private_enum_variants": variants}, open(out, "w"), indent=0)
 print(len(names), "functions")
